@@ -108,13 +108,79 @@ def build(job, tmpdir):
 
 
 def record(job):
+    """normal mode: build the mediator from the .ini with the repository's factory (as run.py does), instrument, run"""
+    import jellyfysh
+    seed = job.get("seed", 0)
+    tmpdir = tempfile.mkdtemp(prefix="jfrun_")
+    random.seed(seed)
+    mediator, config, standin = build(job, tmpdir)
+    trace, go = instrument(mediator, job, config, standin)
+    go()
+    try:
+        if trace["end"] == "EndOfRun":
+            mediator.post_run()
+    except Exception as e:
+        trace["post_run_exception"] = repr(e)
+    trace["rng_after"] = random.random()
+    import shutil
+    shutil.rmtree(tmpdir, ignore_errors=True)
+    return trace
+
+
+def record_resume(job):
+    """resume mode: the repository's own jellyfysh/resume.py main() does everything (load, restore module globals and the random
+    state, run, post_run); the tracer only slips its wrappers onto the loaded mediator at the moment main() calls mediator.run()"""
+    import jellyfysh
+    import dill
+    import jellyfysh.resume as resume
+    from jellyfysh.base.exceptions import EndOfRun
+    os.chdir(os.path.dirname(os.path.abspath(jellyfysh.__file__)))
+    standin = bool(job.get("pdb_standin"))
+    if standin:
+        install_pdb_standin()
+    holder = {}
+
+    class DillShim:
+        def __getattr__(self, name):
+            return getattr(dill, name)
+
+        @staticmethod
+        def load(file, *a, **k):
+            obj = dill.load(file, *a, **k)
+            mediator = obj[0]
+
+            def traced_run():
+                del mediator.__dict__["run"]
+                trace, go = instrument(mediator, job, None, standin)
+                holder["trace"] = trace
+                go()
+                if trace["end"] in ("EndOfRun", "cap"):
+                    raise EndOfRun   # let resume.main() finish normally (post_run)
+                raise RuntimeError("traced run ended with " + str(trace["end"]))
+            mediator.__dict__["run"] = traced_run
+            return obj
+    resume.dill = DillShim()
+    old_argv = sys.argv
+    sys.argv = ["resume.py", job["resume"]]
+    import contextlib
+    try:
+        with contextlib.redirect_stdout(io.StringIO()):
+            resume.main()
+    except RuntimeError as e:
+        if "trace" not in holder:
+            raise
+    finally:
+        sys.argv = old_argv
+    trace = holder["trace"]
+    trace["rng_after"] = random.random()
+    return trace
+
+
+def instrument(mediator, job, config, standin):
     import jellyfysh
     import jellyfysh.setting as setting
     from jellyfysh.base.exceptions import EndOfRun
     seed = job.get("seed", 0)
-    random.seed(seed)
-    tmpdir = tempfile.mkdtemp(prefix="jfrun_")
-    mediator, config, standin = build(job, tmpdir)
     act, sh, sch, ioh = mediator._activator, mediator._state_handler, mediator._scheduler, mediator._input_output_handler
     handlers = list(act.get_event_handlers())
     hid = {id(h): i for i, h in enumerate(handlers)}
@@ -139,9 +205,15 @@ def record(job):
         "n_roots": setting.number_of_root_nodes, "n_per_root": setting.number_of_nodes_per_root_node,
         "levels": setting.number_of_node_levels,
         "scheduler": type(sch).__name__,
-        "config": {s: dict(config.items(s)) for s in config.sections()},
+        "config": {s: dict(config.items(s)) for s in config.sections()} if config is not None else None,
     }
-    trace = {"meta": meta, "initial": snapshot(), "legs": [], "writes": [], "end": None}
+    trace = {"meta": meta, "initial": snapshot(), "legs": [], "writes": [], "end": None, "dumps": []}
+    installed = []   # (object, attribute name, wrapper): instance attributes set by this tracer
+
+    def install(obj, name, wrapper):
+        obj.__dict__[name] = wrapper
+        installed.append((obj, name, wrapper))
+    dump_dir = job.get("dump_dir")
     cur = {}
     max_legs = job.get("max_legs", 10 ** 9)
 
@@ -162,10 +234,13 @@ def record(job):
                     "created": [], "times": {}, "trashed": [], "args": {}})
         cur["_active_obj"] = r
         return r
-    sh.extract_active_global_state = extract_active
+    install(sh, "extract_active_global_state", extract_active)
+
+    act_orig = [None]
 
     def wrap_activator():
         orig = act.get_event_handlers_to_run
+        act_orig[0] = (orig, "get_event_handlers_to_run" in act.__dict__)
 
         def get_to_run(active_state, preceding):
             r = orig(active_state, preceding)
@@ -188,7 +263,7 @@ def record(job):
             if act.__dict__.get("get_event_handlers_to_run") is not get_to_run:
                 wrap_activator()  # TagActivator rebinds get_event_handlers_to_run on itself after the first call
             return r
-        act.get_event_handlers_to_run = get_to_run
+        act.__dict__["get_event_handlers_to_run"] = get_to_run
     wrap_activator()
 
     orig_push = sch.push_event
@@ -196,7 +271,7 @@ def record(job):
     def push(event_time, handler):
         cur["times"][hid[id(handler)]] = tq(event_time)
         return orig_push(event_time, handler)
-    sch.push_event = push
+    install(sch, "push_event", push)
 
     orig_get = sch.get_succeeding_event
 
@@ -204,14 +279,14 @@ def record(job):
         h = orig_get()
         cur["chosen"] = hid[id(h)]
         return h
-    sch.get_succeeding_event = get
+    install(sch, "get_succeeding_event", get)
 
     orig_trash_sched = sch.trash_event
 
     def trash(handler):
         cur["trashed"].append(hid[id(handler)])
         return orig_trash_sched(handler)
-    sch.trash_event = trash
+    install(sch, "trash_event", trash)
 
     orig_insert = sh.insert_into_global_state
     depth = [0]
@@ -232,37 +307,55 @@ def record(job):
             leg["i"] = len(trace["legs"])
             trace["legs"].append(leg)
         return r
-    sh.insert_into_global_state = insert
+    install(sh, "insert_into_global_state", insert)
 
     orig_write = ioh.write
 
     def write(name, *args):
         rec = {"leg": len(trace["legs"]) - 1, "handler": name, "nargs": len(args)}
+        if args and args[0] is mediator:
+            # a dump: the pickled mediator must be the bare one, exactly as in an unobserved run -> take every wrapper of this
+            # tracer off for the duration of the write, put them back afterwards; keep a copy of the dump file
+            for obj, nm, w in installed:
+                del obj.__dict__[nm]
+            orig_a, was_inst = act_orig[0]
+            if was_inst:
+                act.__dict__["get_event_handlers_to_run"] = orig_a
+            else:
+                del act.__dict__["get_event_handlers_to_run"]
+            try:
+                r = orig_write(name, *args)
+            finally:
+                for obj, nm, w in installed:
+                    obj.__dict__[nm] = w
+                wrap_activator()
+            rec["dump"] = True
+            if dump_dir:
+                import shutil as _sh
+                src_file = ioh._output_handlers_dictionary[name]._output_filename
+                dst = os.path.join(dump_dir, "dump_%d.dat" % len(trace["dumps"]))
+                _sh.copyfile(src_file, dst)
+                trace["dumps"].append({"leg": rec["leg"], "file": dst})
+            trace["writes"].append(rec)
+            return r
         if args and isinstance(args[0], (list, tuple)) and args[0] and hasattr(args[0][0], "value"):
             rec["state"] = flat_units(args[0])
         trace["writes"].append(rec)
         return orig_write(name, *args)
-    ioh.write = write
+    install(ioh, "write", write)
 
-    try:
-        mediator.run()
-        trace["end"] = "returned"
-    except EndOfRun:
-        trace["end"] = "EndOfRun"
-    except StopTrace:
-        trace["end"] = "cap"
-    except Exception as e:
-        trace["end"] = "exc:" + type(e).__name__
-        trace["exception"] = traceback.format_exc()
-    try:
-        if trace["end"] == "EndOfRun":
-            mediator.post_run()
-    except Exception as e:
-        trace["post_run_exception"] = repr(e)
-    trace["rng_after"] = random.random()
-    import shutil
-    shutil.rmtree(tmpdir, ignore_errors=True)
-    return trace
+    def go():
+        try:
+            mediator.run()
+            trace["end"] = "returned"
+        except EndOfRun:
+            trace["end"] = "EndOfRun"
+        except StopTrace:
+            trace["end"] = "cap"
+        except Exception as e:
+            trace["end"] = "exc:" + type(e).__name__
+            trace["exception"] = traceback.format_exc()
+    return trace, go
 
 
 def dump_occupancy(act):
@@ -289,7 +382,7 @@ def main():
     import warnings
     warnings.simplefilter("ignore")
     try:
-        tr = record(job)
+        tr = record_resume(job) if job.get("resume") else record(job)
     except Exception as e:
         tr = {"meta": {"ini": job.get("ini")}, "legs": [], "writes": [], "end": "build-exc:" + type(e).__name__,
               "exception": traceback.format_exc()}
